@@ -56,6 +56,13 @@ var c20MsgSecond = []struct {
 	{"body", func(m socket.Message) { m.SetBodyCodec('j'); m.SetBody([]byte(`"new"`)) }},
 	{"pipe", func(m socket.Message) { m.XferPipe().Append('m') }},
 	{"statusinit", func(m socket.Message) { m.Status(true) }},
+	{"parsebare", func(m socket.Message) { m.Meta().Parse("debug&z=") }},
+	{"recv", func(m socket.Message) {
+		// the next user receives a frame into the message
+		f := world.Frame{Seq: 4, Mtype: 1, Method: "/r", Status: "code=5&msg=x", Meta: "debug&tok&a=1", Codec: 'j', Body: []byte(`"b"`)}
+		m.SetNewBody(func(socket.Header) interface{} { return new([]byte) })
+		world.Proto("raw")(&memRW{r: bytes.NewReader(f.Bytes())}).Unpack(m)
+	}},
 }
 
 func msgView(m socket.Message) string {
@@ -144,14 +151,15 @@ func c20(p Params) func() {
 				vsched.Failf("harness: the pool did not hand the recycled Args back")
 			}
 			fresh := &utils.Args{}
-			second := []func(x *utils.Args){func(x *utils.Args) {}, func(x *utils.Args) { x.Add("nk", "nv") }, func(x *utils.Args) { x.Set("k", "1") }, func(x *utils.Args) { x.Parse("p=q") }}
+			second := []func(x *utils.Args){func(x *utils.Args) {}, func(x *utils.Args) { x.Add("nk", "nv") }, func(x *utils.Args) { x.Set("k", "1") }, func(x *utils.Args) { x.Parse("p=q") },
+				func(x *utils.Args) { x.Parse("k") }, func(x *utils.Args) { x.Parse("debug&y&k=") }, func(x *utils.Args) { x.Add("e", ""); x.Add("f", "") }, func(x *utils.Args) { x.ParseBytes([]byte("a&b&c")) }}
 			s := vsched.Choose(len(second), "second")
 			second[s](a2)
 			second[s](fresh)
 			view := func(x *utils.Args) string {
 				var vis []string
 				x.VisitAll(func(k, v []byte) { vis = append(vis, string(k)+"="+string(v)) })
-				return fmt.Sprintf("len=%d q=%q visit=%v peekDirty=%q peekk=%q has=%v", x.Len(), x.QueryString(), vis, x.Peek(dirtyMark), x.Peek("k"), x.Has("x"))
+				return fmt.Sprintf("len=%d q=%q visit=%v peekDirty=%q peekk=%q peekdebug=%q has=%v", x.Len(), x.QueryString(), vis, x.Peek(dirtyMark), x.Peek("k"), x.Peek("debug"), x.Has("x"))
 			}
 			if va, vb := view(a2), view(fresh); va != vb {
 				vsched.Failf("recycled Args differ from fresh ones | first user: %s second: %d\n recycled: %s\n fresh:    %s", hist, s, va, vb)
@@ -263,29 +271,41 @@ func c20ctx(depth int) {
 		vsched.Failf("ServeConn: %v", st)
 	}
 	req := func(seq int32) []byte {
-		return world.Frame{Seq: seq, Mtype: erpc.TypeCall, Method: h, Codec: 'j', Body: []byte(`"a"`)}.Bytes()
+		f := world.Frame{Seq: seq, Mtype: erpc.TypeCall, Method: h, Codec: 'j', Body: []byte(`"a"`)}
+		if seq == 1 {
+			f.Meta = "token=" + dirtyMark + "&second=" + dirtyMark + "&third=" + dirtyMark
+			f.Body = []byte(`"` + dirtyMark + dirtyMark + `"`)
+		} else {
+			f.Meta = "debug&flag"
+		}
+		return f.Bytes()
 	}
 	raw.Write(req(1))
 	vsched.Quiesce()
-	n1 := len(raw.Peer().Written)
-	raw.Write(req(2))
-	vsched.Quiesce()
-	second := raw.Peer().Written[n1:]
-	if calls != 2 {
-		vsched.Failf("handler ran %d times for 2 requests | first handler: %s outcome %d", calls, hist, firstFails)
-	}
-	// reference: the same second request on a server whose contexts were never used
-	wantView := fmt.Sprintf("swaplen=0 swapdirty=false method=%q inmeta=[] incodec=106 inpipe=\"\" outmeta=\"\" outpipe=\"\" outcodec=0 outstat=<nil> outsize=0 seq=2", h)
-	if secondView != wantView {
-		vsched.Failf("the second handler sees state of the first one through the recycled context | first handler: %s outcome %d\n got:  %s\n want: %s", hist, firstFails, secondView, wantView)
-	}
-	wantReply := world.Frame{Seq: 2, Mtype: erpc.TypeReply, Status: "code=0", Codec: 'j', Body: []byte(`"second"`)}.Bytes()
-	if !bytes.Equal(second, wantReply) {
-		f, _, _ := world.ParseFrame(second)
-		vsched.Failf("the reply to the second request differs from the reply of a fresh context | first handler: %s outcome %d\n got:  %s\n want: %q", hist, firstFails, f.String(), wantReply)
-	}
-	if bytes.Contains(second, []byte(dirtyMark)) {
-		vsched.Failf("marker of the first request on the wire of the second reply")
+	// the reader takes the context for the next message while the first handler still runs, so the
+	// context dirtied by request 1 is handed out again two requests later: check requests 2 and 3
+	for seq := int32(2); seq <= 3; seq++ {
+		n1 := len(raw.Peer().Written)
+		secondView = ""
+		raw.Write(req(seq))
+		vsched.Quiesce()
+		second := raw.Peer().Written[n1:]
+		if calls != int(seq) {
+			vsched.Failf("handler ran %d times for %d requests | first handler: %s outcome %d", calls, seq, hist, firstFails)
+		}
+		// reference: the same request on a server whose contexts were never used
+		wantView := fmt.Sprintf("swaplen=0 swapdirty=false method=%q inmeta=[debug= flag=] incodec=106 inpipe=\"\" outmeta=\"\" outpipe=\"\" outcodec=0 outstat=<nil> outsize=0 seq=%d", h, seq)
+		if secondView != wantView {
+			vsched.Failf("a later handler sees state of the first one through the recycled context | request %d, first handler: %s outcome %d\n got:  %s\n want: %s", seq, hist, firstFails, secondView, wantView)
+		}
+		wantReply := world.Frame{Seq: seq, Mtype: erpc.TypeReply, Status: "code=0", Codec: 'j', Body: []byte(`"second"`)}.Bytes()
+		if !bytes.Equal(second, wantReply) {
+			f, _, _ := world.ParseFrame(second)
+			vsched.Failf("the reply to a later request differs from the reply of a fresh context | request %d, first handler: %s outcome %d\n got:  %s\n want: %q", seq, hist, firstFails, f.String(), wantReply)
+		}
+		if bytes.Contains(second, []byte(dirtyMark)) {
+			vsched.Failf("marker of the first request on the wire of a later reply")
+		}
 	}
 	vsched.Logf("%s|%d", hist, firstFails)
 }
